@@ -8,6 +8,49 @@ HERE = os.path.dirname(os.path.dirname(os.path.abspath(__file__)))
 
 # id -> (category, technique, level text, level note, design ref)
 CHECKS = {
+    "C01": (
+        "exploration",
+        "property-based testing (Hypothesis): nested-loop reference model + "
+        "call-log multiset oracle; generated completion orders via fake "
+        "executors",
+        "Generated grids, spellings, constants, result shapes and execution "
+        "strategies; every case is decided against a nested-loop model with an "
+        "injective recording function and an exact call-log multiset.  "
+        "Completion order is a generated permutation for submit- and "
+        "apply_async-style executors and sampled for real pools.",
+        "Values hash-distinct and not NaN; real pools (thread/process/loky) "
+        "are exercised with few cases because their schedules cannot be "
+        "steered.",
+        "DESIGN.md section 4, C01",
+    ),
+    "C02": (
+        "exploration",
+        "property-based testing (Hypothesis): dict-of-coordinates reference "
+        "model, call-log oracle, placeholder validity predicate",
+        "Generated case sets (dict and tuple spellings, sub-grids, eleven "
+        "result kinds, shuffle/flat/split) are decided against a model that "
+        "places each requested result at its sorted-union coordinates and "
+        "demands an all-missing placeholder of the result's shape elsewhere; "
+        "the call log must be exactly the requested settings.",
+        "Uniform keys and per-argument sortable values (implicit "
+        "preconditions of the code); None or NaN accepted for bool/str "
+        "elements inside tuples.",
+        "DESIGN.md section 4, C02",
+    ),
+    "C19": (
+        "exploration",
+        "property-based testing (Hypothesis) against an exact Fraction "
+        "reference; history oracle for the stopping rule",
+        "Generated sequences (offsets to 1e9, spreads to 1e-3, 1..500 values, "
+        "chunkings, permutations, 2-4 correlated series) are compared with "
+        "exact rational arithmetic under a stated data-scale tolerance; the "
+        "repeat loop is driven by scripted generators and its call log is "
+        "checked against the stopping rule.  High confidence over the "
+        "generated domain, not a proof.",
+        "Tolerance 8*n*2^-53*max|x| defines 'floating-point accuracy relative "
+        "to the data scale'; count >= 1.",
+        "DESIGN.md section 4, C19",
+    ),
     "C20": (
         "exploration",
         "property-based testing (Hypothesis) + exhaustive boundary lattice + "
